@@ -52,7 +52,8 @@ RULE = ("schema: FIX42UTEST plus ten application messages with two-character Msg
         "(A0 AD 0X 1Z 2B 3C 4D 5E DD ZZ; derived schema utest2c); messages sent are D/F/8 mixed with these.  "
         "schedules over SI/SA (application send on the initiator/acceptor), DA/DI (deliver what is in flight towards the "
         "acceptor/initiator), D (deliver until quiet), DROP (in-flight bytes lost, both sides reconnect), RI/RA (process "
-        "restart), CFG a b (both sides re-created with forced start numbers: initiator sends from a / expects b; later "
+        "restart), OI/OA (OVERLAP: a send during which, inside the modify_outbound hook, the peer's message in flight is "
+        "processed by the reader thread -- then a reconnect re-loads the control record), CFG a b (both sides re-created with forced start numbers: initiator sends from a / expects b; later "
         "reconnects recover from the files) with a, b around and beyond 8192 up to 2^31 - 100, followed by traffic and a reconnect / "
         "restart; every schedule ends with D.  quick: all schedules up to length 2, all fault-free ones over {SI,SA,DA,DI} up "
         "to length 4 after the logon exchange, and a random sample of longer ones (up to 12 operations, mostly fault-free "
@@ -148,7 +149,7 @@ def render(ops, rng=None, types=None):
     out = []
     k = 0
     for o in ops:
-        if o in ("SI", "SA"):
+        if o in ("SI", "SA", "OI", "OA"):
             k += 1
             if types:
                 t = types[(k - 1) % len(types)]
@@ -176,7 +177,7 @@ def valid(ops):
             logged = True
         elif o in ("DROP", "RI", "RA") or o.startswith("CFG"):
             logged = False
-        elif o == "SA" and not logged:
+        elif o in ("SA", "OA") and not logged:
             return False
     return True
 
@@ -206,6 +207,19 @@ def gen_cases(rng, tier):
         fault = ["DROP", "RI", "RA"][k % 3]
         add(["D", "SI", "SA", "SI", "SA", "D", fault, "D", "SI", "SA", "SA", "SI"], "two-char-types", types=[t, t, "D", t])
         add(["D", "SA", "SI", "DA", "DI", "SI", "SA"], "two-char-types", types=[t, TWOCHAR[(k + 3) % len(TWOCHAR)], "F"])
+    # OVERLAP: a send during which (modify_outbound hook: after the number assignment, before the control record is
+    # written) the peer's message in flight is fully processed by the reader thread; nothing repairs the control record
+    # afterwards; then the store is re-loaded (drop / restart).  Only on an established, quiet connection and with an
+    # application message in flight (the processing must not write: the sender holds the writer lock)
+    k = 0
+    for first in ("SA", "SI"):
+        ov = "OI" if first == "SA" else "OA"
+        for fault in ("DROP", "RI", "RA"):
+            for tail in ([], ["SI"], ["SA"], ["SI", "SA"]):
+                k += 1
+                add(["D", first, ov, "D", fault, "D"] + tail, "overlap", types=["D", TWOCHAR[k % len(TWOCHAR)]])
+                add(["D", first, first, ov, ov, fault, "D"] + tail, "overlap", types=["D", "F", TWOCHAR[k % len(TWOCHAR)]])
+            add(["D", first, ov, fault, "D", "SI", "SA"], "overlap")
     # carried-over numbers around and beyond 8192 (the FilePersister index record of a message holds its length, <= 8192,
     # where the control record holds the expected receive number; a message's record holds an offset where the control
     # record holds the send number) up to 2^31: the operators force the numbers (CFG a b: initiator sends from a,
